@@ -152,6 +152,18 @@ theorem stop_loses_nothing (c : Cfg) (hc : c.busy ≤ c.idle) (hi : 0 < c.idle) 
   rw [hq, hfut] at hperm
   simpa using hperm
 
+/-- ... and the loop does end: whatever was called and whenever the stop comes, after finitely many iterations (a bound is
+    given explicitly) the loop has left and every entry of every accepted call has been transmitted exactly once -/
+theorem loop_ends_with_everything_sent (c : Cfg) (hb : 0 < c.busy) (hc : c.busy ≤ c.idle) (adds : List Add) (quitAt n : Nat)
+    (hn : mu (lastTime quitAt adds) (start adds quitAt) < n) :
+    (run c n (start adds quitAt)).2 = true ∧ ((run c n (start adds quitAt)).1.out.map (·.2)).Perm (future quitAt adds) := by
+  have hdone := run_terminates hb hc n (start_bounded adds quitAt) hn
+  exact ⟨hdone, stop_loses_nothing c hc (Nat.lt_of_lt_of_le hb hc) adds quitAt n hdone⟩
+
+/-- non-vacuity: two overlapping multicast messages, stop while the second is still pending -/
+example : (run Generated.loopCfg 400
+    (start [⟨250, 0, Generated.multicast, 150, 70⟩, ⟨250, 1, Generated.multicast, 500, 249⟩] 700500)).2 = true := by decide +kernel
+
 /-- each accepted call contributes `1 + repeat` entries -/
 theorem entries_per_message (a : Add) : (entriesOf a).length = 1 + a.p.repeats := entriesOf_length a
 
